@@ -80,6 +80,17 @@ Theorem cleanup_removes_every_subdir (s : fs) (p : path) :
 Proof. exact (cleanup_spec s p). Qed.
 Print Assumptions cleanup_removes_every_subdir.
 
+(* If the generators do not read the ambient setting (observed: byte comparison of runs under
+   different time zones, locales, environments, directory depths; supported statically by
+   no_ambient_inputs below), then the directory after ANY history is the same whatever the
+   setting of each individual invocation was: every theorem above carries over to
+   histories run on different machines / in different environments. *)
+Theorem ambient_irrelevant (A : Type) (filesA : A -> cmd -> list file) fin (a0 : A) (h : list (A * op)) (s0 : fs) :
+  ambient_independent A filesA ->
+  runA A filesA fin h s0 = run (filesA a0) fin (map snd h) s0.
+Proof. intro H. exact (ambient_irrelevant_l A filesA fin a0 H h 1 s0). Qed.
+Print Assumptions ambient_irrelevant.
+
 (* Why the hypotheses are there. The unrestricted statements are false of File.Render: *)
 
 (* a gen file directly in gen/ (not in a sub-directory) is appended to by the second gen *)
@@ -204,8 +215,9 @@ Theorem all_example_file_sites_skip_exist (s : file_site) :
 Proof. exact (file_sites_skip_l s). Qed.
 Print Assumptions all_example_file_sites_skip_exist.
 
-(* no generator package reads the clock, a global random source or the environment,
-   except the inspected uses *)
+(* no generator package reads the clock, a global random source, the environment, the host
+   identity or the local time zone (time.Local, and every location-dependent method of
+   time.Time on a value not pinned by .UTC() / .In(time.UTC)), except the inspected uses *)
 Theorem no_ambient_inputs (a : ambient_site) : In a ambient_sites -> aallowed a = true.
 Proof. exact (proj1 (forallb_forall aallowed ambient_sites) ambient_sweep a). Qed.
 Print Assumptions no_ambient_inputs.
